@@ -13,8 +13,8 @@ Proof. exact cancel_refines_signals. Qed.
 Print Assumptions C39_cancel_refines_signals.
 
 Theorem C39_break_stops_rest_of_block : forall tm e nm rest st o x xp, st <> [] -> all_live st = true ->
-  exec_block tm e (BCons (Break nm) rest) {| c_stack := st; c_out := o; c_exit := x |} xp
-  = ({| c_stack := brk_walk nm st; c_out := o; c_exit := x |}, 0%Z).
+  fst (exec_block tm e (BCons (Break nm) rest) {| c_stack := st; c_out := o; c_exit := x |} xp)
+  = {| c_stack := brk_walk nm st; c_out := o; c_exit := x |}.
 Proof. exact break_stops_rest_of_block. Qed.
 Print Assumptions C39_break_stops_rest_of_block.
 
@@ -45,8 +45,17 @@ Theorem C39_return_sets_exit : forall main o k x, well_named main = true ->
 Proof. exact return_sets_exit. Qed.
 Print Assumptions C39_return_sets_exit.
 
+(* a block that ends by `return k` has exit number k: at any nesting depth, last statement or not *)
+Theorem C39_return_exit_any_depth : forall b tm e xp o k x, ref_block tm e b xp = (o, SRet k, x) -> x = k.
+Proof. exact (proj2 ret_exit_all). Qed.
+Print Assumptions C39_return_exit_any_depth.
+
+(* return n sets the exit number of the call, wherever it is written in the function: directly
+   in its body or nested at any depth, also when the block holding it is the function's last
+   statement (the exit number of a call is that of the last statement of the function's block) *)
 Theorem C39_return_sets_call_exit : forall e f b encl st o x o1 k xb,
-  all_live st = true -> map f_name st = names encl -> encl <> [] -> wn_block [(NFunc f, false)] b = true ->
+  all_live st = true -> map f_name st = names encl -> encl <> [] ->
+  wn_stmt encl (Call f b) = true ->
   ref_block false [] b 0%Z = (o1, SRet k, xb) ->
   exec_stmt false e (Call f b) {| c_stack := st; c_out := o; c_exit := x |}
   = ({| c_stack := st; c_out := o ++ o1 ++ [TExit k]; c_exit := x |}, 0%Z).
@@ -73,8 +82,8 @@ Proof. exact break_inside_try_affects_only_named_block. Qed.
 Print Assumptions C39_break_inside_try_affects_only_named_block.
 
 (* ... while a call that returns a non-zero number does end the try block, as documented *)
-Theorem C39_failed_call_ends_try_block : forall e f b rest o1 k xb, (0 < k)%Z -> rest <> BNil ->
-  ref_block false [] b 0%Z = (o1, SRet k, xb) ->
+Theorem C39_failed_call_ends_try_block : forall e f b rest o1 g k, (0 < k)%Z -> rest <> BNil ->
+  ref_block false [] b 0%Z = (o1, g, k) ->
   ref_block true e (BCons (Call f b) rest) 0%Z = (o1, SNone, k).
 Proof. exact failed_call_ends_try_block. Qed.
 Print Assumptions C39_failed_call_ends_try_block.
@@ -118,6 +127,19 @@ Example C39_function_boundary_nonvacuous :
   run_cancel helper_breaks_callers_loop =
     ([TOut 1; TExit 0; TOut 3; TOut 1; TExit 0; TOut 3; TOut 1; TExit 0; TOut 3; TOut 4], 0%Z) /\
   spec_ok {| c_prog := helper_breaks_callers_loop; c_obs_out := [TOut 1; TOut 4]; c_obs_exit := 0%Z |} = false.
+Proof. vm_compute. repeat split. Qed.
+
+(* seeded mutation C39-2: `return 3` inside an `if` / a loop that is the LAST statement of the
+   function; the call must report 3; an observation reporting 0 is rejected *)
+Definition return_in_last_block : block :=
+  BCons (Call 1 (BCons (Out 1) (BCons (Branch BIf CTrue (BCons (Return 3) BNil) BNil) BNil)))
+  (BCons (Call 2 (BCons (Loop LForeach 1 3 (BCons (Branch BIf (CEq 1 2) (BCons (Return 7) BNil) BNil) (BCons (Out 2) BNil))) BNil))
+  (BCons (Branch BIf CTrue (BCons (Return 1) BNil) BNil) BNil)).
+Example C39_return_last_block_nonvacuous :
+  well_named return_in_last_block = true /\
+  run_cancel return_in_last_block = ([TOut 1; TExit 3; TOut 2; TExit 7], 1%Z) /\
+  spec_ok {| c_prog := return_in_last_block; c_obs_out := [TOut 1; TExit 0; TOut 2; TExit 7]; c_obs_exit := 1%Z |} = false /\
+  spec_ok {| c_prog := return_in_last_block; c_obs_out := [TOut 1; TExit 3; TOut 2; TExit 7]; c_obs_exit := 0%Z |} = false.
 Proof. vm_compute. repeat split. Qed.
 
 (* Non-vacuity: a well-named program with a function, nested foreach / while / for / switch / try,
